@@ -664,7 +664,7 @@ func tRecurrent(gg *ggraph, rt *rapid.T) bool {
 	// needs a float32 value (S,B,I) with the batch on axis 1, or (B,S,I) with batch on axis 0 which
 	// is first transposed (as in the repository's sample models)
 	x, ok := gg.pick(rt, "rnnX", func(v gv) bool {
-		return isF32(v) && len(v.shape) == 3 && !v.init && (v.batch == 1 || v.batch == 0) && v.shape[2]*v.shape[v.batch] > 1 && (v.shape[2] > 1 || len(gg.nodes)%4 == 0)
+		return isF32(v) && len(v.shape) == 3 && !v.init && (v.batch == 1 || v.batch == 0)
 	})
 	if !ok {
 		return false
@@ -678,7 +678,7 @@ func tRecurrent(gg *ggraph, rt *rapid.T) bool {
 	if I == 1 {
 		gg.feat("recurrent-input-size-1")
 	}
-	H := rapid.IntRange(2, 4).Draw(rt, "rnnH")
+	H := rapid.IntRange(1, 4).Draw(rt, "rnnH")
 	kind := rapid.SampledFrom([]string{"RNN", "GRU", "LSTM"}).Draw(rt, "rnnKind")
 	G := map[string]int{"RNN": 1, "GRU": 3, "LSTM": 4}[kind]
 	half := func(t tensor.Tensor) tensor.Tensor {
